@@ -391,6 +391,46 @@ fn check_shape(shape: &[usize]) -> ShapeResult {
             if d >= 3 {
                 res.views_2d += 1;
             }
+            // clone histories: a clone taken after j items continues exactly where the original is,
+            // and the original is not disturbed by it
+            for j in 0..=expect.len() + 1 {
+                res.states += 1;
+                res.transitions += (expect.len() + 2) as u64;
+                let r = catch(|| {
+                    let mut it = view.iter();
+                    for _ in 0..j {
+                        it.next();
+                    }
+                    let mut c = it.clone();
+                    let rest = &expect[j.min(expect.len())..];
+                    if c.len() != rest.len() {
+                        return Err(format!("a clone taken after {j} items reports len()={}, {} items remain", c.len(), rest.len()));
+                    }
+                    let from_clone: Vec<f64> = c.by_ref().copied().collect();
+                    if from_clone != rest {
+                        return Err(format!("a clone taken after {j} items yields {from_clone:?}, the original has {rest:?} left"));
+                    }
+                    if c.next().is_some() {
+                        return Err(format!("a clone taken after {j} items is not fused"));
+                    }
+                    let from_orig: Vec<f64> = it.copied().collect();
+                    if from_orig != rest {
+                        return Err(format!("after cloning at {j} items the original yields {from_orig:?}, expected {rest:?}"));
+                    }
+                    Ok(())
+                });
+                match r {
+                    Ok(Ok(())) => {}
+                    Ok(Err(why)) => {
+                        res.v(shape, "view_iter-clone-wrong", format!("view(axis {a}, pos {pos}).iter() on shape {shape:?}: {why}"), ctx.clone());
+                        break;
+                    }
+                    Err(p) => {
+                        res.v(shape, &format!("view_iter-clone-panic|{}", panic_class(&p)), format!("view(axis {a}, pos {pos}).iter() on shape {shape:?}: clone history at {j} panicked: {p}"), ctx.clone());
+                        break;
+                    }
+                }
+            }
             let name = if d == 1 { "view_iter-0dim" } else { "view_iter" };
             protocol(name, view.iter(), &expect, |x, y| **x == *y, &mut res, shape, &ctx);
             protocol_adaptors(name, || view.iter(), &expect, |x, y| **x == *y, &mut res, shape, &ctx);
@@ -422,6 +462,27 @@ fn check_shape(shape: &[usize]) -> ShapeResult {
                     format!("view(axis {a}, pos {pos}).to_array() on shape {shape:?} panicked: {p}"),
                     ctx.clone(),
                 ),
+            }
+        }
+    }
+
+    // (iii-b) positions far beyond the axis (up to the number of elements and a little more) are out
+    // of range for every axis, whatever the lengths of the other axes
+    if cells <= 4096 {
+        for a in 0..d {
+            for pos in shape[a] + 2..=cells + 2 {
+                res.evals += 1;
+                match catch(|| arr.get_axis(Axis(a), pos).is_some()) {
+                    Ok(false) => {}
+                    Ok(true) => {
+                        res.v(shape, "get_axis-range|far", format!("get_axis(Axis({a}), {pos}) on shape {shape:?} is Some, the axis has {} positions", shape[a]), J::obj([("axis", J::u(a)), ("pos", J::u(pos))]));
+                        break;
+                    }
+                    Err(p) => {
+                        res.v(shape, &format!("get_axis-panic|pos-far-out-of-range|{}", panic_class(&p)), format!("get_axis(Axis({a}), {pos}) on shape {shape:?} panicked: {p}"), J::obj([("axis", J::u(a)), ("pos", J::u(pos))]));
+                        break;
+                    }
+                }
             }
         }
     }
@@ -528,8 +589,52 @@ fn check_shape(shape: &[usize]) -> ShapeResult {
             }
         }
     }
-    let _ = cells;
     res
+}
+
+/// `target.clone_from(&source)` and `source.clone()` for arrays of two shapes: the result must be
+/// indistinguishable from the source (shape, data, every index, every axis view, axis sums).
+fn check_clone_pair(from: &[usize], into: &[usize]) -> Result<(), String> {
+    let src_ref = RefArray::from_fn(from, |f, _| f as f64 + 0.5);
+    let src: Array<f64> = Array::new(src_ref.data.clone(), from.to_vec()).map_err(|e| e.to_string())?;
+    let dst_ref = RefArray::from_fn(into, |f, _| 1000.0 + f as f64);
+    let mut t: Array<f64> = Array::new(dst_ref.data.clone(), into.to_vec()).map_err(|e| e.to_string())?;
+    t.clone_from(&src);
+    for (how, got) in [("clone_from", &t), ("clone", &src.clone())] {
+        if got.shape().to_vec() != from || got.as_slice() != src.as_slice() || got.dimensions() != from.len() || got.elements() != src_ref.data.len() {
+            return Err(format!("{how}: shape {:?} data {:?}, source has shape {from:?} data {:?}", got.shape().to_vec(), got.as_slice(), src.as_slice()));
+        }
+        if got != &src {
+            return Err(format!("{how}: the result does not compare equal to its source"));
+        }
+        for idx in indices(from) {
+            let e = src_ref.get(&idx);
+            if got.get(&idx).copied() != Some(e) {
+                return Err(format!("{how}: get({idx:?}) = {:?}, the source has {e}", got.get(&idx)));
+            }
+        }
+        // one past the end of every axis stays out of range
+        for a in 0..from.len() {
+            let mut idx = vec![0usize; from.len()];
+            idx[a] = from[a];
+            if got.get(&idx).is_some() {
+                return Err(format!("{how}: get({idx:?}) is Some although axis {a} has {} positions", from[a]));
+            }
+            for pos in 0..from[a] {
+                let view: Vec<f64> = got.get_axis(Axis(a), pos).ok_or_else(|| format!("{how}: get_axis(Axis({a}), {pos}) is None"))?.iter().copied().collect();
+                let expect: Vec<f64> = indices(from).iter().filter(|i| i[a] == pos).map(|i| src_ref.get(i)).collect();
+                if view != expect {
+                    return Err(format!("{how}: view(axis {a}, pos {pos}) = {view:?}, the source has {expect:?}"));
+                }
+            }
+            let s = got.sum(Axis(a));
+            let e = src_ref.marginalize(&[a]);
+            if s.shape().to_vec() != e.shape || s.as_slice() != e.data.as_slice() {
+                return Err(format!("{how}: sum(Axis({a})) = {:?} {:?}, expected {:?} {:?}", s.shape().to_vec(), s.as_slice(), e.shape, e.data));
+            }
+        }
+    }
+    Ok(())
 }
 
 /// Invariants at the ends of the index <-> position bijection for an array of zero-sized elements
@@ -630,6 +735,39 @@ pub fn run(tier: Tier) -> i32 {
             extra: vec![],
         });
     }
+    // clone / clone_from between arrays of every ordered pair of shapes (equal and different element
+    // counts, equal counts with different shapes): no state of the target may survive
+    {
+        let cshapes: Vec<Vec<usize>> = shapes(3, 1, 4, 24);
+        let pairs: Vec<(usize, usize)> = (0..cshapes.len()).flat_map(|i| (0..cshapes.len()).map(move |j| (i, j))).collect();
+        let res = crate::par::par_map(pairs.len(), |k| {
+            let (i, j) = pairs[k];
+            let (a, b) = (cshapes[i].clone(), cshapes[j].clone());
+            match catch(move || check_clone_pair(&a, &b)) {
+                Ok(Ok(())) => None,
+                Ok(Err(e)) => Some(("wrong".to_string(), e)),
+                Err(p) => Some((format!("panic|{}", panic_class(&p)), p)),
+            }
+        });
+        for ((i, j), r) in pairs.iter().zip(res) {
+            if let Some((k, e)) = r {
+                rep.violation(
+                    format!("C19|lib|clone-pair|{k}|{}", if cshapes[*i].iter().product::<usize>() == cshapes[*j].iter().product::<usize>() { "same-count" } else { "different-count" }),
+                    format!("source shape {:?} cloned into an array of shape {:?}: {e}", cshapes[*i], cshapes[*j]),
+                    J::obj([("kind", J::s("c19-clone")), ("shape", J::usizes(&cshapes[*i])), ("into", J::usizes(&cshapes[*j]))]),
+                );
+            }
+        }
+        rep.transitions += 2 * pairs.len() as u64;
+        rep.part(Part {
+            name: "lib: clone and clone_from between shapes".into(),
+            evaluations: pairs.len() as u64,
+            nontrivial: pairs.len() as u64,
+            note: format!("every ordered pair of the {} shapes with 1..3 axes, lengths 1..4 and <= 24 elements: target.clone_from(&source) and source.clone() are indistinguishable from the source (shape, data, equality, every index, one past every axis, every axis view, every axis sum)", cshapes.len()),
+            exhaustive: true,
+            extra: vec![],
+        });
+    }
     let results = par_each(&shp, |s| check_shape(s));
     let mut evals = 0;
     let mut nontrivial = 0;
@@ -681,6 +819,14 @@ pub fn replay(case: &J) -> Option<Vec<String>> {
             Ok(Ok(())) => vec![],
             Ok(Err(e)) => vec![format!("C19|lib|huge-array :: {e}")],
             Err(p) => vec![format!("C19|lib|huge-array|panic :: {p}")],
+        });
+    }
+    if case.get("kind").and_then(|k| k.as_str()) == Some("c19-clone") {
+        let (a, b) = (shape.clone(), case.get("into")?.as_usizes()?);
+        return Some(match catch(move || check_clone_pair(&a, &b)) {
+            Ok(Ok(())) => vec![],
+            Ok(Err(e)) => vec![format!("C19|lib|clone-pair|wrong :: {e}")],
+            Err(p) => vec![format!("C19|lib|clone-pair|panic :: {p}")],
         });
     }
     if shape.iter().product::<usize>() > 100_000 {
